@@ -342,6 +342,18 @@ impl CaState {
 	}
 }
 
+fn peek_order_cert(g: &CaState, body: &[u8]) -> Option<String> {
+	let j = jwk::parse_flattened_bytes(body).ok()?;
+	let p: Value = serde_json::from_slice(&j.payload).ok()?;
+	let ids: Vec<(String, String)> = p
+		.get("identifiers")?
+		.as_array()?
+		.iter()
+		.map(|i| (i["type"].as_str().unwrap_or("").to_string(), i["value"].as_str().unwrap_or("").to_string()))
+		.collect();
+	g.cert_for(&ids)
+}
+
 struct Head {
 	method: String,
 	path: String,
@@ -441,12 +453,23 @@ fn handle<S: Stream>(st: &Arc<Mutex<CaState>>, s: &mut S) {
 	let path_only = head.path.split('?').next().unwrap_or("").to_string();
 	// phase 1: classify, count, pick the fault (needs only the request head)
 	let (pos, oid, cert, tx, tx_cert, fault, idx, delay);
+	let mut early_body: Option<Vec<u8>> = None;
+	if head.method == "POST" && path_only == "/new-order" {
+		// the certificate a newOrder belongs to is only known from its payload
+		early_body = read_body(s, &head);
+		if early_body.is_none() {
+			return;
+		}
+	}
 	{
 		let mut g = st.lock().unwrap();
 		let (p, o) = g.classify(&head.method, &path_only);
 		pos = p;
 		oid = o;
-		cert = oid.and_then(|o| g.orders[o].cert.clone());
+		cert = match &early_body {
+			Some(b) => peek_order_cert(&g, b),
+			None => oid.and_then(|o| g.orders[o].cert.clone()),
+		};
 		let c1 = g.tx.entry((None, pos.clone())).or_insert(0);
 		*c1 += 1;
 		tx = *c1;
@@ -491,7 +514,13 @@ fn handle<S: Stream>(st: &Arc<Mutex<CaState>>, s: &mut S) {
 		s.shutdown_both();
 		return;
 	}
-	let Some(body) = read_body(s, &head) else { return };
+	let body = match early_body {
+		Some(b) => b,
+		None => match read_body(s, &head) {
+			Some(b) => b,
+			None => return,
+		},
+	};
 	if delay > 0 {
 		std::thread::sleep(Duration::from_millis(delay));
 	}
@@ -1099,7 +1128,8 @@ fn process(g: &mut CaState, idx: usize, head: &Head, path: &str, pos: &Pos, oid:
 				return Resp::problem("badCSR", 400, "csr names");
 			}
 			let plan = g.plan.clone();
-			let pem = match g.issuer.issue(&view.spki, &view.san, plan.not_before_s, plan.not_after_s, plan.chain_len) {
+			let chain_len = if plan.chain_len_seq.is_empty() { plan.chain_len } else { plan.chain_len_seq[oid % plan.chain_len_seq.len()] };
+			let pem = match g.issuer.issue(&view.spki, &view.san, plan.not_before_s, plan.not_after_s, chain_len) {
 				Ok(p) => p,
 				Err(e) => {
 					g.event(idx, "issue-error", e);
